@@ -1,5 +1,5 @@
 import NanoVerif.Proofs.ClipBox
-import NanoVerif.Proofs.VarModel
+import NanoVerif.Proofs.VarModelMulti
 /-
 C18 — A variable colour font reproduces each master at its location (the part that is nanoemoji's own).
 What nanoemoji adds to ufo2ft's variable build: one static UFO per master, and the designspace
@@ -174,5 +174,55 @@ example : valueAt [[0], [-1], [1]] [500, 420, 640] [-1] = 420 ∧ valueAt [[0], 
     ∧ valueAt [[0], [-1], [1]] [500, 420, 640] [0] = 500 ∧ valueAt [[0], [-1], [1]] [500, 420, 640] [1/2] = 570 := by
   decide +kernel
 example : sortLocs [[1], [0], [-1/2], [-1]] = [[0], [-1/2], [-1], [1]] := by decide +kernel
+
+/-- **C18.2 (any number of axes, the whole model)** masters in the model's order (`GoodOrder`: distinct positions in
+[-1, 1]ᵏ, the number of axes moved on never decreasing): the font's value at master `i`'s location is master `i`'s
+value — `_computeMasterSupports`' box splitting makes the scalar table unit lower-triangular
+(`Var.scalarTable_triangular`), and forward substitution does the rest. -/
+theorem masters_reproduced (locs : List Loc) (k : Nat) (h : GoodOrder locs k) (ms : List Q)
+    (hlen : ms.length = locs.length) (i : Nat) (m : Q) (hi : ms[i]? = some m) :
+    valueAt locs ms (locs.getD i []) = m := by
+  have hil : i < ms.length := by
+    rcases Nat.lt_or_ge i ms.length with c | c
+    · exact c
+    · rw [List.getElem?_eq_none c] at hi; cases hi
+  have key := deltas_reproduce (scalarTable locs) ms i m hi
+    (scalarTable_triangular locs k h i (hlen ▸ hil)).1
+    (fun j hij hjl => (scalarTable_triangular locs k h j (hlen ▸ hjl)).2 i hij)
+  unfold valueAt
+  unfold scalarTable at key
+  exact key
+
+/-- … with integer-rounded deltas, within ½ of the master (any number of axes). -/
+theorem masters_reproduced_rounded_model (rnd : Q → Q) (hr : ∀ x, |rnd x - x| ≤ 1 / 2) (locs : List Loc) (k : Nat)
+    (h : GoodOrder locs k) (ms : List Q) (hlen : ms.length = locs.length) (i : Nat) (m : Q) (hi : ms[i]? = some m) :
+    |interpolate (fun j => scalarTable locs j i) (getDeltas rnd (scalarTable locs) ms) - m| ≤ 1 / 2 := by
+  have hil : i < ms.length := by
+    rcases Nat.lt_or_ge i ms.length with c | c
+    · exact c
+    · rw [List.getElem?_eq_none c] at hi; cases hi
+  exact masters_reproduced_rounded rnd hr (scalarTable locs) ms i m hi
+    (scalarTable_triangular locs k h i (hlen ▸ hil)).1
+    (fun j hij hjl => (scalarTable_triangular locs k h j (hlen ▸ hjl)).2 i hij)
+
+/-- **C18.2 (masters declared in any order)** the order `VariationModel` sorts the masters into (`sortLocs`, tied to
+`VariationModel.locations`) is a `GoodOrder` whatever order the configuration declares them in, so every master is
+reproduced: any number of axes, any number of masters at distinct normalised positions. -/
+theorem masters_reproduced_any_order (user : List Loc) (k : Nat) (hlen : ∀ l ∈ user, l.length = k)
+    (hbox : ∀ l ∈ user, ∀ v ∈ l, -1 ≤ v ∧ v ≤ 1) (hnd : user.Nodup) (ms : List Q)
+    (hl : ms.length = user.length) (i : Nat) (m : Q) (hi : ms[i]? = some m) :
+    valueAt (sortLocs user) ms ((sortLocs user).getD i []) = m := by
+  obtain ⟨g, p⟩ := sortLocs_good user k hlen hbox hnd
+  exact masters_reproduced (sortLocs user) k g ms (by rw [hl, p.length_eq]) i m hi
+
+-- non-vacuity: two axes, a corner master, in the model's order
+example : GoodOrder [[0, 0], [1, 0], [0, -1], [1, -1]] 2 := by
+  refine ⟨by decide, ?_, by decide, by decide⟩
+  intro l hl v hv
+  simp only [List.mem_cons, List.not_mem_nil, or_false] at hl
+  rcases hl with rfl | rfl | rfl | rfl <;> simp only [List.mem_cons, List.not_mem_nil, or_false] at hv <;>
+    rcases hv with rfl | rfl <;> constructor <;> decide +kernel
+example : valueAt [[0, 0], [1, 0], [0, -1], [1, -1]] [10, 30, 14, 50] [1, -1] = 50
+    ∧ valueAt [[0, 0], [1, 0], [0, -1], [1, -1]] [10, 30, 14, 50] [1, -1/2] = 40 := by decide +kernel
 
 end NanoVerif.C18
